@@ -2,6 +2,7 @@ package router
 
 import (
 	"bytes"
+	"context"
 	"encoding/base64"
 	"io"
 	"log"
@@ -28,7 +29,12 @@ type fastHttpServer struct {
 
 func (f *fastHttpServer) Shutdown() error {
 	f.closed.Store(true)
-	err := f.s.Shutdown()
+	// fasthttp waits for every connection that is not idle, and a connection that
+	// has not sent a request yet is not idle until ReadTimeout. Don't let a client
+	// delay the shutdown (and the closers behind this one) that long.
+	ctx, cancel := context.WithTimeout(context.Background(), time.Second)
+	defer cancel()
+	err := f.s.ShutdownWithContext(ctx)
 	f.l.Close()
 	return err
 }
